@@ -75,7 +75,7 @@ def op_free(case):
 def fault_free(case):
     for s, _, _ in S.all_specs(case):
         if s[0] == "leaf":
-            if s[3] == "fail" or any(o in ("raise", "kbint") for _, o in s[4]):
+            if s[3] in ("fail", "kbint", "sysexit") or any(o in ("raise", "kbint", "sysexit") for _, o in s[4]):
                 return False
     return True
 
@@ -115,6 +115,153 @@ def chain_transparent(i, spec, par):
             return False
         a = par[a]
     return True
+
+
+# --------------------------------------------------------------------------- waiter doers: a doer that READS a sibling's .done
+
+def is_waiter(sp):
+    return sp[0] == "leaf" and len(sp[4]) == 1 and isinstance(sp[4][0][1], tuple) and sp[4][0][1][0] == "wait"
+
+
+def waiter_leaf(i, target):
+    """script `while not <doer target>.done: yield 0.0` then return True, as a function-style (doify) doer"""
+    return ("leaf", i, "doify", "ok", [([], ("wait", target))])
+
+
+def completion_cycle(tock, start, leaf):
+    """cycle in which a G04-scripted leaf returns True by the property's rules (asap: next cycle; t > 0: previous due + t);
+    -1 = done True at enter; None = its done flag never becomes True"""
+    if isinstance(leaf[3], tuple):
+        return -1 if leaf[3][1] is True else None
+    if leaf[3] != "ok" or is_waiter(leaf) or breaks_g04(leaf) is not None:
+        return None
+    tock, t, due, k, c = float(tock), float(start), float(start), -1, 0
+    for o in outs_of(leaf):
+        c = k + 1
+        if c > 0:
+            t = t + tock
+        while not (t >= due):
+            t += tock
+            c += 1
+            if c > 20000:
+                return None
+        k = c
+        if isinstance(o, tuple) and o[0] == "yield":
+            due = (t + tock) if is_asap(o[1]) else due + o[1]
+        elif isinstance(o, tuple) and o[0] == "ret":
+            return k if o[1] is True else None
+        else:
+            return None
+    return None
+
+
+def _leaves_preorder(specs):
+    out = []
+    for sp in specs:
+        if sp[0] == "leaf":
+            out.append(sp)
+        else:
+            out.extend(_leaves_preorder(sp[4]))
+    return out
+
+
+def has_waiter(case):
+    return any(is_waiter(sp) for sp in _leaves_preorder(case[5]))
+
+
+def waiters_ok(case):
+    """every waiter names a leaf of the program whose done flag does become True"""
+    ls = _leaves_preorder(case[5])
+    byid = {sp[1]: sp for sp in ls}
+    for sp in ls:
+        if is_waiter(sp):
+            x = byid.get(sp[4][0][1][1])
+            if x is None or completion_cycle(case[1], case[2], x) is None:
+                return False
+    return True
+
+
+def compile_waiters(case):
+    """the program the MODEL and the oracles see: each waiter replaced by the scripted leaf the property predicts for it — it is resumed
+    in every cycle and returns True in the first of its resumes at which the target's done flag is True: the target's completion cycle
+    when the waiter comes after it in the pass, the next one when it comes before"""
+    if not has_waiter(case):
+        return case
+    ls = _leaves_preorder(case[5])
+    order = {sp[1]: n for n, sp in enumerate(ls)}
+    byid = {sp[1]: sp for sp in ls}
+
+    def f(sp):
+        if not is_waiter(sp):
+            return sp
+        x = byid[sp[4][0][1][1]]
+        kx = completion_cycle(case[1], case[2], x)
+        n = 0 if kx < 0 else (kx if order[sp[1]] > order[x[1]] else kx + 1)
+        return ("leaf", sp[1], sp[2], sp[3], [([], ("yield", 0.0))] * n)
+    return case[:5] + (S._map_leaves(list(case[5]), f),) + tuple(case[6:])
+
+
+class waiters:
+    """context manager: while active, harness/areas/sched.py builds REAL waiter doers for waiter leaves (its build_leaf is wrapped, the
+    file is not touched)"""
+    def __enter__(self):
+        self.orig = S.build_leaf
+        orig = self.orig
+
+        def build_leaf(rec, spec, sid):
+            if not is_waiter(spec):
+                return orig(rec, spec, sid)
+            from hio.base import doing
+            i, target = spec[1], spec[4][0][1][1]
+
+            def fn(tymth=None, tock=0.0, **opts):
+                done = None
+                try:
+                    rec.ev(i, "enter", tymth())
+                    sent = yield tock
+                    while True:
+                        rec.ev(i, "recur" if sent == tymth() else "recurBad", tymth())
+                        if rec.obj[target].done:          # READS the sibling's done flag
+                            done = True
+                            break
+                        sent = yield 0.0
+                except GeneratorExit:
+                    rec.ev(i, "cease", tymth())
+                except Exception:
+                    rec.ev(i, "abort", tymth())
+                    raise
+                else:
+                    rec.ev(i, "clean", tymth())
+                finally:
+                    rec.ev(i, "exit", tymth())
+                return done
+            return doing.doify(fn, name=f"w{i}")
+        S.build_leaf = build_leaf
+        return self
+
+    def __exit__(self, *a):
+        S.build_leaf = self.orig
+        return False
+
+
+def add_waiters(rng, g, specs):
+    """insert waiter doers next to / before / after eligible targets of a flat list of leaves (before regrouping)"""
+    out = list(specs)
+    cands = [sp for sp in out if sp[0] == "leaf" and completion_cycle(g.tock, g.start, sp) is not None]
+    for _ in range(rng.choice([1, 1, 2])):
+        if not cands:
+            break
+        x = rng.choice(cands)
+        # function-style targets get their done flag from the SCHEDULER (return value); make most targets function-style
+        if rng.random() < 0.7 and x[2] in ("plain", "genrecur"):
+            x2 = ("leaf", x[1], rng.choice(["doify", "doize", "bound"]), x[3], x[4])
+            out[out.index(x)] = x2
+            cands[cands.index(x)] = x2
+            x = x2
+        w = waiter_leaf(g.nid(), x[1])
+        at = out.index(x)
+        out.insert(rng.choice([at + 1, at + 1, at + 1, at, len(out), 0]), w)
+    return out
 
 
 # --------------------------------------------------------------------------- generators
@@ -297,6 +444,31 @@ def gen_faulted(rng):
     return ("run", g.tock, g.start, r.choice([None, None, 12 * g.tock, 7 * g.tock]), [], top + [cur])
 
 
+def enter_fault_only(case):
+    """exactly one doer can fault and it does so in its ENTER (act fail / kbint / sysexit), wherever it sits: the doers entered before it
+    are force-exited in reverse enter order — by its group first, then by the parents — which is the flat order as well"""
+    faulty = [sp for sp, _, _ in S.all_specs(case) if sp[0] == "leaf" and (sp[3] in ("fail", "kbint", "sysexit")
+              or any(o in ("raise", "kbint", "sysexit") + tuple(getattr(S, "CLOSE_OUTS", ())) for _, o in sp[4]))]
+    return len(faulty) == 1 and faulty[0][3] in ("fail", "kbint", "sysexit") \
+        and not any(o in ("raise", "kbint", "sysexit") + tuple(getattr(S, "CLOSE_OUTS", ())) for _, o in faulty[0][4])
+
+
+def gen_enter_fault(rng):
+    """a regrouped G04 forest in which ONE member, at any position of any group (nested too), fails in its enter"""
+    c = gen_timed(rng, rng.choice(["nested", "g04", "g04"]))
+    leaves = [sp for sp in _leaves_preorder(c[5]) if not is_waiter(sp) and sp[3] == "ok"]
+    targets = {sp[4][0][1][1] for sp in _leaves_preorder(c[5]) if is_waiter(sp)}
+    leaves = [sp for sp in leaves if sp[1] not in targets]
+    if not leaves:
+        return c
+    x = rng.choice(leaves)
+    act = "fail"      # (BaseException kinds raised by an enter are sched's second-generation model; the flatpair head uses the first)
+
+    def f(sp):
+        return ("leaf", sp[1], sp[2], act, sp[4]) if sp[1] == x[1] else sp
+    return c[:5] + (S._map_leaves(list(c[5]), f),)
+
+
 def single_fault_last_path(case):
     """the guard under which C04 also speaks about faulted programs: exactly one leaf can fault (raise / kbint at a step, no failing
     enter), every ancestor of it is a transparent group, and at every level the node on the path to it is the LAST sibling"""
@@ -329,6 +501,8 @@ def gen_timed(rng, kind="nested"):
         specs = g.forest(n, 0.3)
     else:
         specs = g.forest(n)
+    if kind in ("flat", "nested", "g04") and rng.random() < 0.4:
+        specs = add_waiters(rng, g, specs)
     if kind != "flat":
         specs = g.regroup(specs, 0.6 if kind in ("f46", "g04") else 0.45)
         if kind in ("f46", "nested", "g04") and not any(is_group(s) for s in specs):
@@ -417,13 +591,13 @@ def c03_analyse(case, d, nested_asap_rule="next-cycle"):
         if kind == "enter":
             enter_pos[i] = n
         if kind == "recur":
-            if k >= ncyc and d["raised"] == "-":
+            if k >= ncyc and d["raised"] == "-" and fault_free(case):
                 bad.add("recur-after-last-cycle")
             cyc_recurs.setdefault(k, []).append(i)
             resumes.setdefault(i, []).append(k)
     # the tick, directly: a run that did not raise has completed cycles >= 1 cycles and its tyme is start ticked `cycles` times
     # (T[-1] == final tyme was checked above); a run that ended `done` returned right after the cycle of its last event
-    if d["raised"] == "-":
+    if d["raised"] == "-" and fault_free(case):      # (a KeyboardInterrupt out of a doer ends do() quietly without the tick)
         if len(T) < 2:
             bad.add("no-tick:run-returned-with-tyme-still-at-start")
         elif d["done"] and op_free(case) and fault_free(case):
@@ -441,6 +615,10 @@ def c03_analyse(case, d, nested_asap_rule="next-cycle"):
             bad.add("recur-without-enter")
         elif pos != sorted(pos):
             bad.add("cycle-order-differs-from-enter-order")
+            for a in range(len(ids)):
+                for b in range(a + 1, len(ids)):
+                    if pos[a] > pos[b]:
+                        why.setdefault("inversions", []).append((ids[a], ids[b]))      # ids[a] ran before ids[b] but was entered later
     # due tymes: only meaningful without ops/faults, for doers whose ancestors all run every cycle
     if op_free(case) and fault_free(case):
         cleaned = {e[0] for e in tr if e[1] == "clean"}
@@ -748,7 +926,7 @@ def _int_specs(specs):
     return out
 
 
-VARIANTS = ("seq", "same", "faulted-first", "wound", "ints", "iter", "init", "call", "manual", "opts")
+VARIANTS = ("seq", "same", "faulted-first", "wound", "ints", "iter", "init", "call", "manual", "opts", "tymearg", "manual-deeds", "manual-dodoer", "plain")
 HISTORY_VARIANTS = ("seq", "same", "faulted-first", "wound")       # need op-free programs: ops of a first run would change .doers lists
 
 
@@ -770,6 +948,8 @@ def run_var(case, var, mode="do"):
     import gc
     from hio.base import tyming
     core.assert_tree()
+    if var[0] == "ado":          # ("ado", inner variant): the same route, the (last) run through the asyncio entry point
+        return run_var(case, var[1], "ado")
     kind = var[0]
     _, tock, start, limit, pool, specs = case[:6]
     rec = S.Rec()
@@ -813,12 +993,14 @@ def run_var(case, var, mode="do"):
         if kind == "same":
             doist.tock = b_tock
             doist.limit = None if b_limit is None else abs(float(b_limit))
+        elif kind == "tymearg":      # the Doist stands at another tyme (lower / higher / equal); the start tyme comes as do/ado(tyme=)
+            doist = S.make_doist(rec, b_tock, var[1][0], b_limit)
         else:
             doist = S.make_doist(rec, b_tock, b_start, b_limit)
         rec.sched[0] = doist
         n0 = len(rec.log)
         arg = (d for d in doers) if kind == "iter" else doers
-        kw = dict(tyme=b_start) if kind == "same" else {}
+        kw = dict(tyme=b_start) if kind in ("same", "tymearg") else {}
         if kind == "init":
             doist.doers = list(doers)
 
@@ -841,7 +1023,72 @@ def run_var(case, var, mode="do"):
             finally:
                 doist.exit()
 
+        def manual_deeds():
+            """the documented caller-held-deque API: deeds = enter(doers=...); recur(deeds=deeds) ...; exit(deeds=deeds)"""
+            doist.done = False
+            doist.doers = list(doers)
+            deeds = None
+            try:
+                deeds = doist.enter(doers=doers)
+                tymer = tyming.Tymer(tymth=doist.tymen(), duration=doist.limit)
+                while True:
+                    try:
+                        doist.recur(deeds=deeds)
+                        if not deeds:
+                            doist.done = True
+                            break
+                        if doist.limit is not None and tymer.expired:
+                            break
+                    except KeyboardInterrupt:
+                        break
+            finally:
+                rec.ev(0, "stopBeg", doist.tyme)
+                try:
+                    if deeds is not None:
+                        doist.exit(deeds=deeds)
+                finally:
+                    rec.ev(0, "stopEnd", doist.tyme)
+
+        def manual_dodoer():
+            """a DoDoer (tock = the scheduler's) driven by hand as the root scheduler over a caller-held deque, a Tymist ticking"""
+            from hio.base import doing
+            root = doing.DoDoer(doers=[], tock=float(b_tock))
+            root.wind(doist.tymen())
+            doist.done = False
+            doist.doers = list(doers)
+            deeds = None
+            try:
+                deeds = root.enter(doers=doers)
+                tymer = tyming.Tymer(tymth=doist.tymen(), duration=doist.limit)
+                while True:
+                    try:
+                        rec.cycles += 1
+                        if rec.cycles > 3000:
+                            raise S.Runaway("too many cycles")
+                        empty = root.recur(doist.tyme, deeds=deeds)
+                        doist.tick()
+                        if empty != (not deeds):
+                            raise AssertionError("DoDoer.recur return value does not say whether the deeds are used up")
+                        if not deeds:
+                            doist.done = True
+                            break
+                        if doist.limit is not None and tymer.expired:
+                            break
+                    except KeyboardInterrupt:
+                        break
+            finally:
+                rec.ev(0, "stopBeg", doist.tyme)
+                try:
+                    if deeds is not None:
+                        root.exit(deeds=deeds)
+                finally:
+                    rec.ev(0, "stopEnd", doist.tyme)
+
         def go():
+            if kind == "manual-deeds":
+                return manual_deeds()
+            if kind == "manual-dodoer":
+                return manual_dodoer()
             if mode == "ado" and kind not in ("call", "manual"):
                 loop = asyncio.SelectorEventLoop()
                 try:
@@ -876,10 +1123,23 @@ def run_second(case, first, mode="do"):
 def gen_var(rng, case):
     """a variant applicable to `case`"""
     t = float(case[1])
-    kinds = ["ints", "iter", "init", "call", "manual", "opts"]
+    kinds = ["ints", "iter", "init", "call", "manual", "opts", "tymearg", "tymearg", "plain"]
     if op_free(case) and not S.unmodelled(case):
         kinds += list(HISTORY_VARIANTS) * 2
+        if fault_free(case):
+            kinds += ["manual-deeds", "manual-deeds", "manual-dodoer", "manual-dodoer"]
     k = rng.choice(kinds)
+    v = _gen_var_kind(rng, case, k)
+    if k not in ("call", "manual", "manual-deeds", "manual-dodoer") and rng.random() < (0.9 if k == "plain" else 0.4):
+        return ("ado", v)        # through the asyncio entry point
+    return v
+
+
+def _gen_var_kind(rng, case, k):
+    t = float(case[1])
+    if k == "tymearg":
+        st = float(case[2])
+        return (k, (rng.choice([st + 8 * t, st + 2.5 * t, st - 3 * t, st - 0.3, st, 8.0, 0.0]),))
     if k in ("seq", "faulted-first", "same"):
         st1, lim1 = gen_first(rng, case)
         if (lim1 is None and S.has_always(list(case[5]))) or k == "faulted-first" and lim1 is None:
@@ -898,14 +1158,34 @@ def gen_first(rng, case):
     return (rng.choice([0.0, 1.0, 2.5, 100.1, float(case[2]) + 7 * t, float(case[2])]), rng.choice([t, 2.5 * t, 3 * t, 4.1 * t, 7 * t, None, None]))
 
 
+def _vkind(v):
+    return v[1][0] if v[0] == "ado" else v[0]
+
+
+def var_ok(v, c):
+    """is the route `v` meaningful for program `c`?  histories and caller-held deques need op-free programs (ops act on Doist.doers /
+    Doist.deeds); with a caller-held deque an enter that raises loses the deque for the caller (nothing could be closed): fault-free"""
+    k = _vkind(v)
+    if k in HISTORY_VARIANTS + ("manual-deeds", "manual-dodoer") and not op_free(c):
+        return False
+    if k in ("manual-deeds", "manual-dodoer") and not fault_free(c):
+        return False
+    return waiters_ok(c)
+
+
 class SeqCases:
     """mixin for the scheduler checks: a case is a run case, ("seq", (start1, limit1), runcase) or ("var", variant, runcase) — `runcase`
     is what the model is asked and what the oracle judges; the real code gets there through a history / another entry point (run_var)"""
     seq_share = 0.4
 
     @staticmethod
-    def base(case):
+    def raw(case):
         return case[2] if case[0] in ("seq", "var") else case
+
+    @staticmethod
+    def base(case):
+        """what the model is asked and the oracles judge (waiters compiled to the script the property predicts)"""
+        return compile_waiters(case[2] if case[0] in ("seq", "var") else case)
 
     @staticmethod
     def variant(case):
@@ -913,7 +1193,7 @@ class SeqCases:
 
     def with_seq(self, rng, cases):
         for c in cases:
-            if c[0] == "run" and len(c) == 6 and rng.random() < self.seq_share and not S.unmodelled(c) \
+            if c[0] == "run" and len(c) == 6 and rng.random() < self.seq_share and not S.unmodelled(c) and not (has_waiter(c) and False) \
                     and (c[3] is not None or not S.has_always(list(c[5]))):
                 yield ("var", gen_var(rng, c), c)
             else:
@@ -928,7 +1208,9 @@ class SeqCases:
             out.append(("seq", (0.0, 3.0 * t), c))
             out.append(("seq", (float(c[2]) + 5.0, 2.5 * t), c))
             extra = [("same", (float(c[2]) + 5.0, 2.5 * t, 2 * t)), ("faulted-first", (float(c[2]) + 5.0, 4 * t)), ("wound", (float(c[2]) + 9.0,)),
-                     ("ints",), ("iter",), ("init",), ("call",), ("manual",), ("opts",)]
+                     ("ints",), ("iter",), ("init",), ("call",), ("manual",), ("opts",),
+                     ("tymearg", (float(c[2]) + 6 * t,)), ("ado", ("tymearg", (float(c[2]) + 6 * t,))), ("ado", ("tymearg", (float(c[2]) - 2 * t,))),
+                     ("manual-deeds",), ("manual-dodoer",), ("ado", ("plain",)), ("ado", ("same", (float(c[2]) + 5.0, 2.5 * t, t)))]
             out.append(("var", extra[n % len(extra)], c))
             out.append(("var", extra[(n + 4) % len(extra)], c))
         out += [("var", v, ALWAYS_CASE) for v in (("opts",), ("same", (4.0, 1.0, 1.0)), ("manual",))]
@@ -938,15 +1220,17 @@ class SeqCases:
         if case[0] in ("seq", "var"):
             yield case[2]
             for c in super().shrink(case[2]):
-                if case[0] == "var" and case[1][0] not in HISTORY_VARIANTS or op_free(c):
+                if var_ok(self.variant(case), c):
                     yield (case[0], case[1], c)
         elif case[0] == "run":
-            yield from super().shrink(case)
+            for c in super().shrink(case):
+                if waiters_ok(c):
+                    yield c
 
     def mutate(self, rng, case):
         if case[0] in ("seq", "var"):
-            return [(case[0], case[1], c) for c in super().mutate(rng, case[2]) if op_free(c) and fault_free(c)]
-        return super().mutate(rng, case) if case[0] == "run" else []
+            return [(case[0], case[1], c) for c in super().mutate(rng, case[2]) if var_ok(self.variant(case), c)]
+        return [c for c in super().mutate(rng, case) if waiters_ok(c)] if case[0] == "run" else []
 
     def nontrivial(self, case, obs):
         return super().nontrivial(self.base(case), obs)
@@ -955,7 +1239,7 @@ class SeqCases:
         f = super().features(self.base(case), obs)
         if case[0] in ("seq", "var"):
             v = self.variant(case)
-            f.append("variant:" + v[0])
+            f.append("variant:" + ("ado+" + v[1][0] if v[0] == "ado" else v[0]))
             if obs.d.get("first_tyme") is not None and obs.d["first_tyme"] > float(case[2][2]):
                 f.append("first-doist-ended-ahead-of-second-start")
         return f
@@ -1072,6 +1356,216 @@ class HistObs(tuple):
         return (HistObs, (self.runs,))
 
 
+# --------------------------------------------------------------------------- C30: the constructor x call-argument GRID, observing doers
+
+GRID_FOCI = ("temp", "limit", "tyme", "doers", "real")
+
+
+def gen_grid(rng, focus=None):
+    """one point of the grid Doist(tock, tyme, limit, temp, real, doers) x do/ado(doers, limit, tyme, temp); "omit" = argument not passed.
+    The doers OBSERVE what is injected into them (temp, tock, tymth()) in the compared trace; one of them may re-set Doist.limit in mid run."""
+    r = rng
+    tock = r.choice([0.1, 0.3, 0.25, 0.5, 1.0, 0.03125, 0.2])
+    real = r.random() < (0.5 if focus == "real" else 0.08)
+    if real:
+        tock = r.choice([0.001, 0.002])
+    tri = lambda: r.choice([None, False, True])
+    lims = [None, 0, 0.0, tock, 2 * tock, 3 * tock, 0.5, 0.3, 5 * tock]
+    tymes = [0.0, 0.0, 0.4, 0.3, 1.0, 2.5, -0.5]
+    p = dict(tock=tock, real=real,
+             c_tyme=r.choice(tymes), c_limit=r.choice(lims), c_temp=tri(), c_doers=r.random() < 0.4,
+             a_doers=r.random() < 0.7, a_limit=r.choice(["omit", "omit"] + lims), a_tyme=r.choice(["omit", "omit"] + tymes + [0]),
+             a_temp=r.choice(["omit", None, False, True, 0, 1]))
+    if not p["c_doers"]:
+        p["a_doers"] = True
+    # doers: (kind, own temp, steps, tock): kind doer (Doer subclass) | fn (doify) | group (DoDoer of two)
+    n = r.choice([1, 2, 3])
+    doers = []
+    for k in range(n):
+        doers.append((r.choice(["doer", "fn", "fn", "group"]), r.choice([None, None, False, True]), r.choice([1, 2, 3, 5, 8]),
+                      r.choice([0.0, 0.0, tock, 0.1, None])))
+    p["doers"] = doers
+    p["setlimit"] = r.choice([None, None, None, (r.choice([1, 2]), r.choice([None, 0.0, tock, 10 * tock]))])   # (at recur n of doer 0, new limit)
+    if p["setlimit"] and not real:
+        # the doer that re-sets the limit must outlive both the old and the new limit, and a limit must be in force from the start
+        d0 = p["doers"][0]
+        p["doers"] = [(d0[0] if d0[0] != "group" else "fn", d0[1], 40, 0.0)] + p["doers"][1:]
+        if p["c_limit"] in (None, 0, 0.0) and p["a_limit"] in ("omit", None, 0, 0.0):
+            p["c_limit"] = 5 * tock
+    if real:
+        p["setlimit"] = None
+        p["doers"] = [(d[0], d[1], min(d[2], 3), 0.0) for d in doers]
+        if p["c_limit"] is None and p["a_limit"] in ("omit", None):
+            p["a_limit"] = 4 * tock
+    return tuple(sorted(p.items()))
+
+
+def run_grid(params, mode):
+    """REAL code only: build the Doist and observing doers from the grid point, run do() or asyncio ado(), return the observation"""
+    import asyncio
+    import gc
+    from hio.base import doing
+    core.assert_tree()
+    p = dict(params)
+    log = []
+    objs = []
+    holder = {}
+
+    def mk(i, kind, own, steps, tk):
+        if kind == "doer":
+            class D(doing.Doer):
+                def enter(self, *, temp=None):
+                    self.n = 0
+                    log.append((i, "enter", self.tyme, ("temp", temp), ("tock", self.tock)))
+
+                def recur(self, tyme):
+                    self.n += 1
+                    log.append((i, "recur", tyme, ("tymth", self.tymth())))
+                    if i == 1 and p["setlimit"] and self.n == p["setlimit"][0]:
+                        holder["doist"].limit = p["setlimit"][1]
+                    return self.n > steps
+
+                def exit(self):
+                    log.append((i, "exit", self.tyme))
+            d = D(tock=tk if tk is not None else 0.0)
+            if own is not None:
+                d.temp = own
+            return d
+        if kind == "fn":
+            def fn(tymth=None, tock=0.0, temp=None, **opts):
+                log.append((i, "enter", tymth(), ("temp", temp), ("tock", tock), ("opts", tuple(sorted(opts)))))
+                try:
+                    n = 0
+                    while n <= steps:
+                        t = yield tk
+                        n += 1
+                        log.append((i, "recur", t, ("tymth", tymth())))
+                        if i == 1 and p["setlimit"] and n == p["setlimit"][0]:
+                            holder["doist"].limit = p["setlimit"][1]
+                finally:
+                    log.append((i, "exit", tymth()))
+                return True
+            return doing.doify(fn, name=f"g{i}", tock=tk if tk is not None else 0.0, temp=own)
+        kids = [mk(10 * i + 1, "doer", None, steps, tk), mk(10 * i + 2, "fn", own, max(1, steps - 1), 0.0)]
+
+        class G(doing.DoDoer):
+            def enter(self, doers=None, *, temp=None):
+                if doers is None:
+                    log.append((i, "enter", self.tyme, ("temp", temp)))
+                return super().enter(doers=doers, temp=temp)
+        g = G(doers=kids, tock=0.0)
+        if own is not None:
+            g.temp = own
+        return g
+
+    doers = [mk(k + 1, *d) for k, d in enumerate(p["doers"])]
+    kw = dict(tock=p["tock"], tyme=p["c_tyme"], real=p["real"])
+    if p["c_limit"] is not None:
+        kw["limit"] = p["c_limit"]
+    if p["c_temp"] is not None:
+        kw["temp"] = p["c_temp"]
+    if p["c_doers"]:
+        kw["doers"] = doers
+    doist = doing.Doist(**kw)
+    holder["doist"] = doist
+    a = {}
+    if p["a_doers"]:
+        a["doers"] = doers
+    for k in ("limit", "tyme", "temp"):
+        if p["a_" + k] != "omit":
+            a[k] = p["a_" + k]
+    cycles = [0]
+    orig = doist.recur
+
+    def recur(*pa, **k2):
+        cycles[0] += 1
+        if cycles[0] > 3000:
+            raise S.Runaway("too many cycles")
+        return orig(*pa, **k2)
+    doist.recur = recur
+    gc_was = gc.isenabled()
+    gc.disable()
+    try:
+        class R:
+            dead = False
+        rec = R()
+        rec.log = log
+
+        def go():
+            if mode == "do":
+                doist.do(**a)
+            else:
+                loop = asyncio.SelectorEventLoop()
+                try:
+                    loop.run_until_complete(doist.ado(**a))
+                finally:
+                    loop.close()
+        raised, n = _classify(rec, go)
+        gc.collect(1)
+    finally:
+        if gc_was:
+            gc.enable()
+    ids = []
+    flags = []
+    for k, d in enumerate(doers):
+        flags.append((k + 1, bool(d.done)))
+    return dict(trace=log[:n], late=log[n:], flags=flags, done=bool(doist.done), tyme=doist.tyme, raised=raised,
+                doers=[doers.index(d) + 1 if d in doers else -1 for d in doist.doers], limit=doist.limit, temp=doist.temp, ndeeds=len(doist.deeds))
+
+
+def c30_grid_clauses(a, b):
+    bad = list(c30_clauses(a, b))
+    inj = lambda o: [e[3:] for e in o["trace"] if e[1] == "enter"]
+    if inj(a) != inj(b):
+        bad.append("injected-temp-or-tock-differs")
+    for k in ("limit", "temp", "ndeeds"):
+        if a[k] != b[k]:
+            bad.append("doist-%s-differs-after-run" % k)
+    return sorted(set(bad))
+
+
+class GridObs(tuple):
+    def __new__(cls, a, b):
+        o = super().__new__(cls, ("unmodelled",))
+        o.a = a
+        o.b = b
+        o.d = a
+        return o
+
+    def __reduce__(self):
+        return (GridObs, (self.a, self.b))
+
+
+def skeleton_focus():
+    """which run parameters the statements mention in which Doist.ado (normalised as in TimeSkel.lean) differs from Doist.do right now:
+    used to aim the generators (and so the failing-input search) when the translator's theorem no longer checks"""
+    try:
+        from ..extract import sched_skeleton as XS
+        do, ado, _ = XS.read_skeletons()
+    except Exception:
+        return []
+    norm = []
+    for it in ado:
+        it = [t2 for t in it for t2 in (["self", ".", "timer"] if t == "atimer" else [t])]
+        if it[:4] == ["await", "asyncio", ".", "sleep"]:
+            it = ["call", "time", ".", "sleep"] + it[4:]
+        norm.append(it)
+    drop = [["else"], ["{"], ["call", "time", ".", "sleep", "(", "0.0", ")"], ["}"]]
+    for k in range(len(norm) - 3):
+        if norm[k:k + 4] == drop:
+            norm = norm[:k] + norm[k + 4:]
+            break
+    norm = [it for it in norm if it != ["assign", "self", ".", "timer", "=", "timing", ".", "AsyncTimer"]]
+    diff = [it for it in norm if it not in do] + [it for it in do if it not in norm]
+    words = {t for it in diff for t in it}
+    foci = [f for f in GRID_FOCI if f in words]
+    if "deeds" in words and "doers" not in foci:
+        foci.append("doers")
+    if "tymer" in words and "limit" not in foci:
+        foci.append("limit")
+    return foci
+
+
 def c30_cancel_clauses(case, j, ref, c):
     """what a cancelled ado must still guarantee (ref = the uncancelled do() run of the same program)"""
     bad = []
@@ -1159,12 +1653,26 @@ DEGENERATE_CORPUS = [
     ("run", 0.3, 100.1, 0.7, [], [_grp(9, [], 0.3)]),
 ]
 # one fault in mid cycle inside the LAST transparent group, live siblings on both sides (flat closes 5,3,2,1; nested 5,3 then 2,1)
+ENTER_FAULT_CORPUS = [
+    # the enter of a LATER member of a group raises: the members already entered are force-exited (2 then 1), flat and grouped
+    ("run", 1.0, 0.0, None, [], [_lf(1, [0.0] * 3), _grp(9, [_lf(2, [0.0] * 3, "plain"), _lf(3, [0.0], "doify", "fail"), _lf(4, [0.0] * 3)])]),
+    ("run", 0.5, 1.0, None, [], [_grp(9, [_lf(1, [0.0] * 3), _grp(8, [_lf(2, [0.0] * 3, "genrecur"), _lf(3, [0.0] * 3), _lf(4, [], "bound", "fail")])]), _lf(5, [0.0] * 3)]),
+    ("run", 1.0, 0.0, 5.0, [], [_grp(9, [_lf(1, [0.0] * 3, "doize"), _lf(2, [0.0] * 2)]), _grp(8, [_lf(3, [0.0], "genrecur", "fail"), _lf(4, [0.0] * 3)])]),
+]
 FAULT_CORPUS = [
     ("run", 1.0, 0.0, None, [], [_lf(1, [0.0] * 6), _lf(2, [0.0] * 6, "plain"), _grp(9, [_lf(3, [0.0] * 6), ("leaf", 4, "doify", "ok", [([], ("yield", 0.0)), ([], ("yield", 0.0)), ([], "raise")]), _lf(5, [0.0] * 6, "genrecur")])]),
     ("run", 0.5, 1.0, None, [], [_grp(8, [_lf(1, [None] * 6)]), _grp(9, [_lf(2, [0.0] * 6), _grp(7, [_lf(3, [0.0] * 6, "bound"), ("leaf", 4, "genrecur", "ok", [([], ("yield", 0.0)), ([], "kbint")]), _lf(5, [0.0] * 6), _lf(6, [0.0] * 6, "plain")])])]),
 ]
 # an `always` DoDoer (kept, resumed every cycle) that outlives its only doer, next to a lagging doer; stopped by the limit
 ALWAYS_CASE = ("run", 0.5, 0.0, 3.0, [], [_grp(7, [_grp(9, [_lf(1, [0.0, 0.0])])], 0.0, True), _lf(2, [1.0] * 3, "plain")])
+# a function-style doer whose done flag comes from its return value, followed in the same pass by a doer that waits on that flag:
+# flat and regrouped; the waiter before its target; target done at enter
+WAITER_CORPUS = [
+    ("run", 1.0, 0.0, None, [], [_lf(1, [0.0, 0.0], "doify"), waiter_leaf(2, 1), _lf(3, [0.0] * 5, "plain")]),
+    ("run", 1.0, 0.0, None, [], [_grp(9, [_lf(1, [0.0, 0.0], "doify"), waiter_leaf(2, 1)]), _lf(3, [0.0] * 5, "plain")]),
+    ("run", 0.5, 1.0, None, [], [_lf(1, [1.0, 0.0], "bound"), _grp(9, [waiter_leaf(2, 1), _lf(3, [0.3] * 3)])]),
+    ("run", 0.25, 0.3, 5.0, [], [waiter_leaf(2, 1), _grp(9, [_grp(8, [_lf(1, [0.5, None], "doize", ret=(True,))]), waiter_leaf(4, 1)]), _lf(3, [], "doify", ("done", True)), waiter_leaf(5, 3)]),
+]
 TIMING_CORPUS = [
     F46_WITNESS,
     K2_WITNESS,
